@@ -259,6 +259,18 @@ fn run_field<F: FieldLike>(ctx: &Ctx, rec: &mut Rec) {
                         FoldKind::Sum => xs.iter().fold(b(0), |acc, x| f.add(&acc, x)),
                         FoldKind::Product => xs.iter().fold(b(1), |acc, x| f.mul(&acc, x)),
                         FoldKind::SumOfProducts => xs.iter().zip(ys.iter()).fold(b(0), |acc, (x, y)| f.add(&acc, &f.mul(x, y))),
+                        FoldKind::SplitSum => {
+                            let g = (len + 1) / 2;
+                            let head = xs[..g].iter().fold(b(0), |acc, x| f.add(&acc, x));
+                            let tail = xs[g..].iter().fold(b(0), |acc, x| f.add(&acc, x));
+                            f.sub(&head, &tail)
+                        }
+                        FoldKind::SplitProduct => {
+                            let g = (len + 1) / 2;
+                            let head = xs[..g].iter().fold(b(1), |acc, x| f.mul(&acc, x));
+                            let tail = xs[g..].iter().fold(b(1), |acc, x| f.mul(&acc, x));
+                            f.mul(&head, &f.sq(&tail))
+                        }
                     };
                     let (lx2, ly2) = (lx.clone(), ly.clone());
                     match guarded(|| (form.f)(&lx2, &ly2).to_b()) {
